@@ -338,6 +338,21 @@ def run_scenario(sc, seed, index, wl, keep=False):
                         k in (sc.get("sysfault") or "") for k in ("fchmod#", "statx#")):
                     viol("C17", "status0-not-executable", _c17_sig(sc, res, "not-executable"),
                          "exit status 0 but output is not executable")
+        # Second sentence of the property: work that fails must not be reported as success. A fault
+        # (error return, panic, abort, allocation failure, signal) that fired before the worker got
+        # past reporting success to its parent (fork mode: no `after_inform_parent` phase was
+        # reached; --no-fork: always) must give a non-zero status, even if the output file happens
+        # to be complete already; so must any link on which wild printed an error.
+        sim_fault_fired = bool(sc["fault"]) and bool(res["fault_fired"]) and \
+            sc["fault"].split("@")[0] in ("err", "panic", "abort", "alloc", "segv", "kill")
+        past_inform = "phase:after_inform_parent" in kinds
+        if r.status == 0 and sim_fault_fired and not (sc["fork"] and past_inform):
+            viol("C17", "status0-after-fault", _c17_sig(sc, res, "after-fault"),
+                 f"exit status 0 although fault {sc['fault']} fired ({res['fault_fired']}) before the "
+                 f"worker had reported success")
+        if r.status == 0 and "wild: error" in r.err_text():
+            viol("C17", "status0-with-error-message", _c17_sig(sc, res, "with-error-message"),
+                 f"exit status 0 but wild reported an error: {res['err'][-200:]}")
         if r.status == 0 and sc["kind"] != "ok":
             viol("C17", "status0-failing-link", f"fs/status0/{sc['kind']}",
                  f"link that must fail ({sc['kind']}) exited 0")
@@ -408,11 +423,19 @@ def _c17_sig(sc, res, what):
 
 
 def _c18_sig(sc, how, res=None):
-    if sc.get("fsize") and not sc["fault"] and sc["kind"] == "ok":
-        return f"fs/output-{how}/ok/write-error-fsize-limit"
+    # Which file creator the link uses decides *when* the output path is first touched (see
+    # file_writer.rs Output::new): with one thread the file is created in the write stage, with more
+    # a background task creates it as soon as the size is known. Part of the signature so that a
+    # change that makes the single-threaded path touch the output early is not mistaken for the
+    # known multi-threaded finding.
+    creator = "regular-creator" if sc["threads"] == 1 else "background-creator"
     if sc.get("sysfault"):
-        return f"fs/output-{how}/{sc['kind']}/syscall-failure"
-    return f"fs/output-{how}/{sc['kind']}/{_fault_class(sc) if sc['fault'] else 'genuine'}"
+        cls = "syscall-failure"
+    elif sc.get("fsize") and not sc["fault"] and sc["kind"] == "ok":
+        cls = "write-error-fsize-limit"
+    else:
+        cls = _fault_class(sc) if sc["fault"] else "genuine"
+    return f"fs/output-{how}/{sc['kind']}/{cls}/{creator}"
 
 
 def _c19_sig(sc, rel, what):
